@@ -11,9 +11,11 @@ def opC03P2R (args : List W) : String :=
   | [p] =>
     match p.bytes? with
     | some p =>
+      -- second column: the closed form `maskText` (only claimed for mask patterns that are not any-URL patterns)
       (match patternToRegexpText p with
        | some t => outBytes t
-       | none => "PANIC") ++ " -"
+       | none => "PANIC") ++ " " ++
+      (if isAnyPattern p || isRegexPattern p then "-" else outBytes (maskText p))
     | none => "bad-decode"
   | _ => "bad-arity"
 
